@@ -272,8 +272,13 @@ def blocks(model) -> list[dict]:
         groups: dict[tuple, list] = {}
         for it in model[key]:
             groups.setdefault(tuple(it["comps"]), []).append(it)
-        for comps, items in groups.items():
-            out.append({"kind": kind, "comps": list(comps), "items": items})
+        keys = list(groups)
+        if kind == "expressions":
+            # a header-less expressions block must precede every headed one (otherwise it is
+            # read as the continuation of the headed block)
+            keys.sort(key=lambda k: 0 if k == ("",) else 1)
+        for comps in keys:
+            out.append({"kind": kind, "comps": list(comps), "items": groups[comps]})
     return out
 
 
